@@ -188,7 +188,7 @@ fn run_case(id: String, seed: u64, n: usize, parts: usize, nq: usize, disk: bool
 }
 
 pub fn run(ctx: &mut Ctx) {
-    let ncases = ctx.pick(48u64, 1500);
+    let ncases = ctx.pick(144u64, 1500);
     let nq = ctx.pick(70usize, 90);
     for i in 0..ncases {
         if i >= 48 && ctx.out_of_time() {
